@@ -29,7 +29,9 @@ THEOREMS = ["C08_readvalues_roundtrip", "C08_readvalues_any_records", "C08_token
             "C08_block_lookup_found", "C08_block_lookup_absent_rejected", "C08_adf11_header_mismatch_rejected",
             "C08_adas2x_file_roundtrip", "C08_take_vals_stream", "C08_adf15_block_roundtrip",
             "C08_dispatch_table_sound", "C08_adf11_wiring_sound", "C08_thermalcx_planes",
-            "C08_parse_int_digits", "C08_parse_float_fixed", "C08_parse_float_exp"]
+            "C08_parse_int_digits", "C08_parse_float_fixed", "C08_parse_float_exp",
+            "C08_adf12_block_roundtrip", "C08_adf12_file_roundtrip", "C08_adf11_blocks_roundtrip", "C08_adf11_file_roundtrip",
+            "C08_matcher_star", "C08_separator_regex_is_direct", "C08_separator_rejects_data", "C08_separator_accepts_header"]
 
 ERR = {ValueError: "EValue", RuntimeError: "ERuntime", IndexError: "EIndex", KeyError: "EKey", TypeError: "EType",
        AttributeError: "EAttr"}
@@ -316,7 +318,7 @@ def gen_cases(ctx, E):
     W.PROFILE.update(p=0.04, wide=0.04)
 
     # ---- ADF21 / ADF22 -------------------------------------------------------------------------------
-    n2x = 18 if q else 90
+    n2x = 12 if q else 90
     for i in range(n2x):
         which = ("adf21", "adf22bmp", "adf22bme")[i % 3]
         small = q or i % 4
@@ -348,7 +350,7 @@ def gen_cases(ctx, E):
         cases.append(c)
 
     # ---- ADF12 -----------------------------------------------------------------------------------------
-    n12 = 10 if q else 50
+    n12 = 8 if q else 50
     for i in range(n12):
         blocks = W.gen_adf12(rng, nblocks=rng.choice([1, 2, 3]) if q else rng.choice([1, 2, 3, 5, 9, 14]), distinct=(i % 5 != 4))
         txt = W.write_adf12(blocks, annotate=(i % 3 != 2))
@@ -367,7 +369,7 @@ def gen_cases(ctx, E):
     cases.append(c)
 
     # ---- ADF11 -----------------------------------------------------------------------------------------
-    n11 = 24 if q else 120
+    n11 = 18 if q else 120
     types = ["scd", "acd", "ccd", "plt", "prb", "prc"]
     for i in range(n11):
         while True:
@@ -439,7 +441,7 @@ def gen_cases(ctx, E):
         cases.append(c)
 
     # ---- ADF15 -----------------------------------------------------------------------------------------
-    n15 = 30 if q else 180
+    n15 = 24 if q else 180
     for i in range(n15):
         fmt = ("hydrogen", "hydrogen-like", "full")[i % 3]
         t = W.gen_adf15(rng, fmt, nblocks=rng.choice([1, 2, 3]) if q else None,
@@ -989,7 +991,7 @@ def run(ctx):
         "for a metastable-resolved ADF11 file the table of a charge state is that of the last (IPRT, IGRD) block of the stage",
     ]
     ctx.rebuild()
-    ctx.proofs("Properties.C08", THEOREMS, extra_modules=("Model.C08_Check", "Proofs.C08_Findings"))
+    ctx.proofs("Properties.C08", THEOREMS, extra_modules=("Model.C08_Check", "Proofs.C08_Findings", "Proofs.C08_Matcher"))
 
     import cherab
     from common import REPO
@@ -1018,6 +1020,13 @@ def run(ctx):
         rx_path = ctx.write_gen("Regex.v", rx_text)
         rx_ok, out = coqc(rx_path, timeout=300)
         ctx.obligation("Gen/C08/Regex.v compiles", "translator", rx_ok, out)
+        if rx_ok:
+            tie = ("Require Import Cherab.Common.Qx Cherab.Model.C08_Text Cherab.Model.C08_Adf Cherab.Gen.C08.Regex Cherab.Proofs.C08_Matcher.\n"
+                   "(* the separator expression translated from the current source is the one the matcher theorems are about *)\n"
+                   "Lemma sep_tie : r11_sep rx11_src = sep_ref. Proof. reflexivity. Qed.\n")
+            tie_ok, tie_out = coqc(ctx.write_gen("RegexTie.v", tie), timeout=300)
+            ctx.obligation("Gen/C08/RegexTie.v: the separator expression of the source is sep_ref (C08_separator_regex_is_direct applies)",
+                           "tie", tie_ok and not problems, tie_out)
 
     # ---- (T) constants and policy tables of the models, from the current source, with kernel-checked tie lemmas -------------
     lay_text, lay_problems, layout = c08_layout.translate(REPO)
@@ -1065,7 +1074,7 @@ def run(ctx):
                     fails, powt, backt = ["install_adf11%s / read back raised %r" % (c.install, exc)], [], []
                 n_roundtrip += 1
                 c.extra.append(("install_adf11%s + read back = 10**model with units, under the %s charge convention" % (c.install, c.install),
-                                "check_adf11_install %s (MODEL) %s %s" % (ADF11_GET[c.install][2], raw_tbl_lit(powt), raw_tbl_lit(backt))))
+                                "check_adf11_install_exact %s (MODEL) %s %s" % (ADF11_GET[c.install][2], raw_tbl_lit(powt), raw_tbl_lit(backt))))
                 for f in fails:
                     search_fails.append((c, None, "installing the file and reading it back yields the same tables", f))
         else:
@@ -1077,7 +1086,7 @@ def run(ctx):
             n_roundtrip += 1
             if c.back3d or (c.kind == "adf15" and any(k[0] == "thermalcx" for k, _, _ in c.impl)):
                 c.extra.append(("thermal-CX blocks read back from the repository (3-D, two donor temperatures) = model",
-                                "check_thermalcx %d (MODEL) %s" % (c.charge, raw_tbl_lit(c.back3d))))
+                                "check_thermalcx_exact %d (MODEL) %s" % (c.charge, raw_tbl_lit(c.back3d))))
             for f in fails:
                 search_fails.append((c, None, "installing the file and reading it back yields the same tables", f))
 
@@ -1111,9 +1120,12 @@ def run(ctx):
         pieces = [c.text[i:i + 8000] for i in range(0, len(c.text), 8000)] or [""]
         defs = ["Definition %s : str := %s." % (name, " ++ ".join("S_ %s" % coq_string(p) for p in pieces)),
                 "Definition m%d := Eval vm_compute in (%s)." % (gi, c.model.replace("FILE", name))]
-        c.checks = [("model = implementation", "res_eqv m%d %s" % (gi, tbl_lit(c.impl)))]
+        spec = {"adf21": "(spec_2x (qe 1 (-6)))", "adf22bme": "(spec_2x (qe 1 (-6)))", "adf22bmp": "(spec_2x 1)",
+                "adf12": "spec_12", "adf11": "spec_11", "adf15": "spec_15"}[c.kind]
+        c.checks = [("model = implementation, bit for bit (round53 of the decimal value, then the one double operation of the conversion)",
+                     "res_exact %s m%d %s" % (spec, gi, tbl_lit(c.impl)))]
         if c.model_expected and c.expected is not None:
-            c.checks.append(("model = what the writer wrote", "res_eqv m%d %s" % (gi, tbl_lit(c.expected))))
+            c.checks.append(("model = what the writer wrote (exact rationals)", "res_same m%d %s" % (gi, tbl_lit(c.expected))))
         for label, expr in c.extra:
             c.checks.append((label, expr.replace("FILE", name).replace("(MODEL)", "m%d" % gi)))
         blocks.append((c, "\n".join(defs), c.checks))
@@ -1211,17 +1223,25 @@ def run(ctx):
                          "adf15_types": {t: sum(1 for c in cases if c.kind == "adf15" for b in c.tokens["blocks"] if b["type"] == t) for t in ("EXCIT", "RECOM", "CHEXC")},
                          "rejection_cases": sum(1 for c in cases if isinstance(c.expected, str)),
                          "python_only_cases": sum(1 for c in cases if getattr(c, "python_only", False))},
-        "tolerance": {"values": "2^-50 relative, no absolute slack (float() is correctly rounded, <= 2 further roundings)",
+        "tolerance": {"values": "0 (exact): every double returned by the implementation equals round53 (RNE binary64, Model/C11_Round.v) of the "
+                                "decimal value of its token followed by the one double operation of its conversion (x*1e6, x*double(1e-6), w/10); "
+                                "checked by Qeq_bool inside Coq",
+                      "model = writer's tokens": "0 (exact rationals)",
                       "keys, shapes, charge states, transitions, exception kinds": "exact",
-                      "install/read-back (ADF12/15/21/22)": "bitwise equal doubles", "10**x oracle": "bracketed by 10^floor(x), 10^ceil(x) in Coq"},
+                      "install/read-back (ADF12/15/21/22)": "bitwise equal doubles",
+                      "ADF11 install/read-back": "0 given the oracle value P of 10**x: read back = round53(P*1e6), P, round53(P*double(1e-6)); "
+                                                 "the oracle itself is bracketed by 10^floor(x), 10^ceil(x) in Coq"},
         "regex_patterns_translated": patterns,
         "source_constants_tied_by_kernel_lemmas": layout,
-        "partial": ["file level: ADF21/ADF22 whole-file round trip and ADF15 block round trip are theorems; ADF12 block and ADF11 file round "
-                    "trips are not (their layers are: records, token streams, axis order, keyed tables, header check) -- the regular-expression "
-                    "layer of ADF11/ADF15 (separator / header / comment-index recognition) is translated from the source and tied by the "
-                    "correspondence only; in the ADF15 block theorem the header line enters through its regex captures as hypotheses",
+        "partial": ["file level: ADF21/22 file, ADF12 block + file, ADF15 block and ADF11 block loop + file round trips are theorems; in the ADF11 "
+                    "and ADF15 ones the recognition of lines by regular expressions enters as hypotheses on the lines. Of these the separator "
+                    "expression ^\\s*C*-{2,} is proved equal to a direct recogniser on all strings (and tied to the source by Gen/C08/RegexTie.v); "
+                    "the other expressions (first separator with C{0}, end tests C{1}/C{0,1}, 'C' line, Z1 search, the ADF15 header / index / "
+                    "block-id expressions with capture groups) are translated from the source and tied by the correspondence only: the star "
+                    "lemma covers unbounded repetition of one-character tests, not bounded repetition nor capture groups",
                     "text -> number: parse_int / parse_float are proved to return the decimal value of the printed digits for the I, F and "
-                    "1PE/1PD token shapes; that CPython's float() is the nearest double of that value is trusted and compared at 2^-50",
+                    "1PE/1PD token shapes; that CPython's float() is round-to-nearest-even to binary64 of that value is no longer a tolerance: "
+                    "it is checked exactly on every value by the correspondence (model of binary64 RNE: Model/C11_Round.v)",
                     "ADF21/22 header column positions are read off the source (kernel tie lemma) and agree with the writer; no published "
                     "sample is available offline"],
         "compared_in_coq": {"model = implementation tables (keys, shapes exact; values 2^-50)": "every file",
